@@ -51,9 +51,23 @@ func (p Params) Body() func() {
 			cancel()
 			callerCancelled = true
 		}
+		// contexts handed to calls, with the event number of each call's exit (0 = still running) and
+		// of the first exit of a failing call
+		type handedCtx struct {
+			ctx  context.Context
+			i    int
+			exit int
+		}
+		var handed []*handedCtx
+		seq, firstFailExit := 0, 0
 		body := func(fctx context.Context, i int) error {
 			pre := fctx != nil && fctx.Err() != nil
+			var h *handedCtx
 			hx.Atomically(func() {
+				if fctx != nil {
+					h = &handedCtx{ctx: fctx, i: i}
+					handed = append(handed, h)
+				}
 				if returned {
 					hx.Fail("call-after-return", "f(%d) started after the function had returned", i)
 				}
@@ -68,7 +82,17 @@ func (p Params) Body() func() {
 				}
 			})
 			hx.Yield()
-			hx.Atomically(func() { active--; exited++ })
+			hx.Atomically(func() {
+				active--
+				exited++
+				seq++
+				if h != nil {
+					h.exit = seq
+				}
+				if failSet[i] && firstFailExit == 0 {
+					firstFailExit = seq
+				}
+			})
 			if failSet[i] {
 				return callErr{i}
 			}
@@ -159,6 +183,16 @@ func (p Params) Body() func() {
 				}
 				if p.Ctx == "live" {
 					hx.Fail("error-swallowed", "a call must have failed, yet nil was returned")
+				}
+			}
+			// "cancel the context handed to the others": once a call has failed and the function has
+			// returned its error, no call holds a context that is still live
+			// (required for the calls that were still running when the first failing call finished)
+			if err != nil && firstFailExit > 0 {
+				for _, h := range handed {
+					if h.exit > firstFailExit && h.ctx.Err() == nil {
+						hx.Fail("context-of-other-calls-not-cancelled", "%s returned %v; f(%d) was still running when the failing call finished, yet the context it was handed is still live", p.Variant, err, h.i)
+					}
 				}
 			}
 			if p.Variant == "MapContext" && err != nil && out != nil {
